@@ -114,6 +114,19 @@ def Buf.skipLoop : Nat → Buf → Nat → Option RErr × Buf
       | some e => (if n' = 0 then none else some e, b)
       | none => if bs.isEmpty then (some .any, b) else skipLoop fuel b n'
 
+/-- ReadSlice('\n') as used by net/textproto to read one header line: fill until a newline is
+    buffered; a full buffer without newline is handed out whole (ErrBufferFull / isPrefix) and the
+    line continues. Only the consumption matters here. fuel bounds the number of fills. -/
+def Buf.readLine : Nat → Buf → Buf
+  | 0, b => b
+  | fuel + 1, b =>
+    match b.buf.idxOf? (10 : UInt8) with
+    | some i => { b with buf := b.buf.drop (i + 1) }
+    | none =>
+      if b.err.isSome then { b with buf := [], err := none }
+      else if b.buf.length ≥ b.size then Buf.readLine fuel { b with buf := [] }
+      else Buf.readLine fuel b.fill
+
 def Buf.skip (b : Buf) (n : Nat) : Option RErr × Buf := b.skipLoop (n + 1) n
 
 end WS
